@@ -33,7 +33,7 @@ impl FeatureIter {
             #vis fn #ident_iter_fn() -> #ident_iter_struct {
                 use ::core::iter::IntoIterator;
                 #ident_iter_struct {
-                    inner: [ #(#ident_enum::#enums),* ].into_iter()
+                    inner: [ #(Self::#enums),* ].into_iter()
                 }
             }
         };
